@@ -108,19 +108,38 @@ var c07Ops = []c07Op{
 	{"AddImageFromData(gif)", func(d *document.Document, log *[]string) {
 		d.AddImageFromData(gifBytes(3, 3, 7), "c.gif", document.ImageFormatGIF, 3, 3, nil)
 	}},
+	// pictures read from one path whose file is rewritten by the caller before each call (another picture per operation)
+	{"AddImageFromFile(shared path <- png 2x1)", func(d *document.Document, log *[]string) {
+		os.WriteFile(c07SharedPath(), pngBytes(2, 1, 31), 0o644)
+		if info, err := d.AddImageFromFile(c07SharedPath(), nil); err == nil && info != nil {
+			*log = append(*log, fmt.Sprintf("img=%dx%d", info.Width, info.Height))
+		}
+	}},
+	{"AddImageFromFile(shared path <- png 3x2)", func(d *document.Document, log *[]string) {
+		os.WriteFile(c07SharedPath(), pngBytes(3, 2, 32), 0o644)
+		if info, err := d.AddImageFromFile(c07SharedPath(), nil); err == nil && info != nil {
+			*log = append(*log, fmt.Sprintf("img=%dx%d", info.Width, info.Height))
+		}
+	}},
+}
+
+// c07SharedPath is a file path private to this process (parallel shard processes must not share it).
+func c07SharedPath() string {
+	return filepath.Join(os.TempDir(), fmt.Sprintf("vcheck-c07-shared-%d.png", os.Getpid()))
 }
 
 // Document origins: distinct documents may descend from a common source.
 //   0 new       document.New()
 //   1 opened    OpenFromMemory of the same bytes (a library-built package with header, footer and picture)
 //   2 rendered  RenderTemplateToDocument from one shared template whose base document has those three relationships
-var c07OriginNames = []string{"new", "opened", "rendered"}
+var c07OriginNames = []string{"new", "opened", "rendered", "new(files)"}
 
 // alphabets per origin (indices into c07Ops)
 var c07Alphabet = [][]int{
 	{0, 1, 2, 3, 4, 5, 6, 7, 8, 9, 10, 13},
 	{0, 1, 3, 6, 10, 11, 16, 17, 14, 15},
 	{0, 1, 3, 6, 13, 11, 16, 17, 14, 15},
+	{0, 9, 18, 19}, // origin 3: new documents, pictures from one rewritten path (sequential part only)
 }
 
 func c07BaseDoc() *document.Document {
@@ -737,8 +756,55 @@ func c07RaceBodies() []func() {
 	return out
 }
 
+// racePairs runs the given pairs of bodies concurrently, both goroutines released from one start channel.
+func racePairs(pairs [][2]func()) {
+	for _, pair := range pairs {
+		start := make(chan struct{})
+		done := make([]chan struct{}, 2)
+		for k, f := range pair {
+			done[k] = make(chan struct{})
+			go func(f func(), d chan struct{}) {
+				<-start
+				f()
+				close(d)
+			}(f, done[k])
+		}
+		close(start)
+		for _, d := range done {
+			<-d
+		}
+	}
+}
+
+// raceWide runs the wide API bodies (c07_wide.go): sequential warm-up, then every body against itself
+// and against every other body.
+func raceWide(reps int) {
+	wide := c07WideBodies()
+	defer os.RemoveAll(c07WideTemp())
+	warm := 12
+	if os.Getenv("VCHECK_TIER") == "thorough" {
+		warm = 60
+	}
+	for i := 0; i < warm; i++ {
+		for _, b := range wide {
+			guard(b)
+		}
+	}
+	var pairs [][2]func()
+	for rp := 0; rp < reps; rp++ {
+		for i := range wide {
+			for j := i; j < len(wide); j++ {
+				a, b := wide[i], wide[j]
+				pairs = append(pairs, [2]func(){func() { guard(a) }, func() { guard(b) }})
+			}
+		}
+	}
+	racePairs(pairs)
+}
+
 // racePassChild runs `bodies` pairwise concurrently in a free-running process (race build).
 func racePassChild(bodies []func(), reps int) {
+	defer raceWide(reps)
 	// warm-up: the encoding/xml and reflect caches must be quiescent, otherwise their internal locks order the accesses
 	warm, allPairs := 200, true
 	if os.Getenv("VCHECK_TIER") != "thorough" {
@@ -878,10 +944,10 @@ func runC07(r *rep.Run) {
 	if r.Tier == "thorough" {
 		maxA, maxB, three = 3, 2, true
 	}
-	r.Rule = "documents of three origins (new; opened from the same bytes; rendered from one shared template); part S: all pairs of per-document histories over the origin's alphabet (12 / 10 / 10 operations, see bounds) (lengths <= bounds) and ALL merges of the two sequences, executed on distinct documents in one process; part C: every schedule with <= 2 preemptions of 2 (thorough: 3) goroutines each building and saving its own document, scheduling points = every statement of every function that touches a mutable package-level variable or calls such a function, and every lock operation; oracle for both: each document's canonical package (per part) and accessor results equal those of its own history executed alone as the first activity of a fresh process; part R: the same bodies pairwise in a free-running -race build after 200 sequential warm-ups (race detector = detection only); non-trivial = a merge in which the documents alternate / a scenario with at least one branching scheduling point"
+	r.Rule = "documents of three origins (new; opened from the same bytes; rendered from one shared template); part S: all pairs of per-document histories over the origin's alphabet (12 / 10 / 10 / 4 operations, see bounds; the fourth family are new documents that read pictures from one path the caller rewrites) (lengths <= bounds) and ALL merges of the two sequences, executed on distinct documents in one process; part C: every schedule with <= 2 preemptions of 2 (thorough: 3) goroutines each building and saving its own document, scheduling points = every statement of every function that touches a mutable package-level variable or calls such a function, and every lock operation; oracle for both: each document's canonical package (per part) and accessor results equal those of its own history executed alone as the first activity of a fresh process; part R: the same bodies pairwise in a free-running -race build after 200 sequential warm-ups (race detector = detection only); non-trivial = a merge in which the documents alternate / a scenario with at least one branching scheduling point"
 	r.Bounds["ops"] = len(c07Ops)
 	r.Bounds["origins"] = c07OriginNames
-	r.Bounds["alphabet_per_origin"] = []int{len(c07Alphabet[0]), len(c07Alphabet[1]), len(c07Alphabet[2])}
+	r.Bounds["alphabet_per_origin"] = []int{len(c07Alphabet[0]), len(c07Alphabet[1]), len(c07Alphabet[2]), len(c07Alphabet[3])}
 	r.Bounds["max_history_len_A"] = maxA
 	r.Bounds["max_history_len_B"] = maxB
 	r.Bounds["third_document"] = three
